@@ -177,6 +177,14 @@ fn alter_token(t: &Token, arg: i64, bound: usize, extreme_ok: bool) -> Token {
     }
 }
 
+/// Number of serialized entity identifiers in a token stream (for the `alias` fault).
+pub fn identifier_count(s: &Stream) -> usize {
+    match s {
+        Stream::Tokens { tokens, .. } => tokens.iter().filter(|t| matches!(t, Token::Struct { name: "Identifier", .. })).count(),
+        Stream::Json(_) => 0,
+    }
+}
+
 /// Number of distinct alterations defined for the token at `pos`.
 pub fn alt_variants(s: &Stream, pos: usize) -> usize {
     match s {
@@ -231,6 +239,35 @@ pub fn apply_fault(s: &mut Stream, f: &StreamFault) -> bool {
                     let to = (f.arg.rem_euclid(n as i64)) as usize % tokens.len().max(1);
                     tokens.insert(to.min(tokens.len()), t);
                     true
+                }
+                "alias" => {
+                    // Make the index of the `pos`-th serialized entity identifier equal to that of
+                    // the `|arg|`-th one (stored rows and free-list entries alike): an input that is
+                    // inconsistent across sections. With a negative `arg` the allocator's declared
+                    // length is lowered by one as well, so that every index below it can still be
+                    // accounted for when the victim held the highest index.
+                    let ids: Vec<usize> = (0..n).filter(|i| matches!(&tokens[*i], Token::Struct { name: "Identifier", .. })).collect();
+                    if ids.len() < 2 {
+                        return false;
+                    }
+                    let a = ids[f.pos % ids.len()];
+                    let b = ids[(f.arg.unsigned_abs() as usize) % ids.len()];
+                    if a == b || a + 2 >= n || b + 2 >= n {
+                        return false;
+                    }
+                    let new = tokens[b + 2].clone();
+                    let changed = tokens[a + 2] != new;
+                    tokens[a + 2] = new;
+                    if f.arg < 0 {
+                        for i in 0..n.saturating_sub(1) {
+                            if matches!(&tokens[i], Token::Field("length")) {
+                                if let Token::U64(v) = tokens[i + 1] {
+                                    tokens[i + 1] = Token::U64(v.saturating_sub(1));
+                                }
+                            }
+                        }
+                    }
+                    changed
                 }
                 "alt" => {
                     let extreme_ok = pos > 0 && matches!(&tokens[pos - 1], Token::Field("index") | Token::Field("generation"));
